@@ -40,6 +40,10 @@ META = dict(
         '(igamc(1/2, x) near x = 0) the p-value is compared at the implementation\'s own float statistic, which must '
         'agree with the exact one up to 1e-13·n (count in evidence: ill_conditioned_tail_accepted)',
         'per-block linear complexities are an oracle recorded from berlekamp_massey.LinearComplexity (C14)',
+        'batch nist.stats (Props/C12Stats.lean): LinearComplexity / LinearComplexityScatter are ALSO evaluated as functions of '
+        'the bit string (Berlekamp-Massey inside the model: ops nist.lcstat / nist.scatterbits) and compared with the recorded '
+        'oracle and the recorded ChiSquare / Igamc / BinomialCdf arguments; the NIST formulae (T and its classes, the scan of '
+        '2.7.4) are transcribed in stats_batch with Fractions as a third voice',
         'float-underflow oracles (Model/NistFloat.lean), recorded from the real run by wrappers around the module '
         'globals nist_suite.ChiSquare and nist_suite.RandomExcursionsDistribution and passed on the request line: '
         'ChiOracle.badProb = any(not 0.0 < p <= 1.0 for p in prob), ChiOracle.badSum = abs(sum(prob) - 1.0) > 1e-04 '
@@ -1028,6 +1032,9 @@ def correspondence(rep, rng, tier):
   # --- 7c. helper functions of the model against their Python counterparts
   helpers_batch(rep, rng)
 
+  # --- 7d. exact statistics / NIST-side definitions of Model/NistStats.lean (Props/C12Stats.lean)
+  stats_batch(rep, rng, thorough)
+
   # --- 8. spectral test: no exact part; p-value against an mpmath DFT
   spectral_batch(rep, rng, thorough)
 
@@ -1306,6 +1313,268 @@ def helpers_batch(rep, rng):
   for w in bad:
     rep.divergences.append(dict(op='nist.distributions', line=w[:80], impl=w, model='exact rational distribution',
                                 tag='distribution', info=None, property_fails=None))
+
+
+def stats_batch(rep, rng, thorough):
+  """Props/C12Stats.lean: the exact rational statistics and the NIST-side definitions of Model/NistStats.lean
+  (ops nist.lcclass / lcpi / lcstat / notmstat / largematrix / largep / scatterbits / scatterseq / rotate /
+  reverse / complement) against the REAL functions: the integers and floats are recorded at the call sites of
+  nist_suite / extended_nist_suite / util (module globals patched, /repo untouched); the NIST formulae
+  (T, its classes, the scan of 2.7.4) are transcribed here with Fractions as a third voice."""
+  ns, ens, util = mods()
+  from fractions import Fraction as Fr
+
+  def R(q):
+    q = Fr(q)
+    return '%s%x:%x' % ('-' if q < 0 else '', abs(q.numerator), q.denominator)
+
+  def PR(s_):
+    a, b = s_.split(':')
+    return Fr(int(a, 16), int(b, 16))
+
+  def close(x, q):
+    q = float(q)
+    return x == x and abs(x - q) <= 1e-9 * max(1.0, abs(q))
+
+  b = Batch('nist.stats')
+
+  # -- (a) LinearComplexity: class of one block value, through the real LinearComplexityImpl
+  def nist_T(M, Lv):
+    mu = Fr(M, 2) + Fr(9 + (-1) ** (M + 1), 36) - (Fr(M, 3) + Fr(2, 9)) / 2 ** M
+    return (-1) ** M * (Lv - mu) + Fr(2, 9), mu
+
+  def nist_class(T):
+    for i, bound in enumerate((Fr(-5, 2), Fr(-3, 2), Fr(-1, 2), Fr(1, 2), Fr(3, 2), Fr(5, 2))):
+      if T <= bound:
+        return i
+    return 6
+
+  NIST_PI = [Fr(1, 96), Fr(1, 32), Fr(1, 8), Fr(1, 2), Fr(1, 4), Fr(1, 16), Fr(1, 48)]
+
+  def impl_class(M, Lval):
+    got = {}
+    saved = (ns.berlekamp_massey, ns.ChiSquare)
+    try:
+      ns.berlekamp_massey = _Proxy(saved[0], LinearComplexity=lambda s_, length: Lval)
+
+      def chi(count, prob, k=None):
+        got['v'], got['pi'] = list(count), list(prob)
+        return 0.5
+      ns.ChiSquare = chi
+      ns.LinearComplexityImpl([0], M)
+    finally:
+      ns.berlekamp_massey, ns.ChiSquare = saved
+    return got['v'].index(1), got['pi']
+
+  for M in (10, 11, 12, 13, 64, 65, 500, 501) + ((1000, 1001, 4999, 5000) if thorough else ()):
+    med = (M + 1) // 2
+    par = 'even' if M % 2 == 0 else 'odd'
+    pi = None
+    for Lv in sorted(set([0, 1, M - 1, M] + list(range(max(0, med - 5), min(M, med + 5) + 1)))):
+      cls, pi = impl_class(M, Lv)
+      T, mu = nist_T(M, Lv)
+      b.add('nist.lcclass %s %s' % (H(M), H(Lv)), '%x %x %s %s' % (cls, nist_class(T), R(T), R(mu)),
+            tag='lcclass:%s:class%d' % (par, cls))
+    b.add('nist.lcpi %s' % H(M), ','.join(R(Fr(p).limit_denominator(1000)) for p in pi) + ' ' +
+          ','.join(R(p) for p in NIST_PI), tag='lcpi:' + par)
+
+  # -- (b) LinearComplexity as a function of the bit string
+  def lc_string(M, nblocks, extra, mixed):
+    x = 0
+    for i in range(nblocks):
+      kind = rng.choice(('random', 'random', 'random', 'zero', 'last', 'period2', 'lowhalf', 'onebit')) if mixed else 'random'
+      blk = {'random': rng.getrandbits(M), 'zero': 0, 'last': 1 << (M - 1), 'period2': periodic('01', M),
+             'lowhalf': rng.getrandbits(M // 2 - 1), 'onebit': 1 << rng.randrange(M)}[kind]
+      x |= blk << (i * M)
+    return x | (rng.getrandbits(extra) << (nblocks * M) if extra else 0)
+
+  def lc_canon(chi2_impl):
+    def canon(m):
+      f = m.split(' ')
+      if f[0] != 'ok':
+        return m
+      code_chi, nist_chi = PR(f[7]), PR(f[8])
+      if code_chi != nist_chi:
+        return m + ' CODE-CHI-DIFFERS-FROM-NIST-CHI'
+      if not close(chi2_impl, code_chi):
+        return m + ' CHI-FLOAT-MISMATCH impl=%r' % chi2_impl
+      return ' '.join(f[:7] + [f[8]])
+    return canon
+
+  lc_shapes = [(10, 200, 0), (10, 199, 9), (11, 200, 5), (12, 200, 0), (13, 201, 3), (64, 200, 0), (9, 300, 0)]
+  lc_shapes += [(101, 200, 7), (327, 200, 136), (500, 200, 0)] if thorough else [(101, 200, 7), (327, 200, 136)]
+  for (M, nb, extra) in lc_shapes:
+    for mixed in (False, True, True):
+      x = lc_string(M, nb, extra, mixed)
+      n = M * nb + extra
+      with Recorder() as rec:
+        try:
+          ns.LinearComplexity(x, n, M)
+          err = None
+        except Exception as e:  # noqa
+          err = type(e).__name__
+      line = 'nist.lcstat %s %s %s' % (H(x), H(n), H(M))
+      tag = 'lcstat:%s:%s' % ('even' if M % 2 == 0 else 'odd', 'mixed' if mixed else 'random')
+      if err:
+        b.add(line, 'err ' + err, tag='lcstat:' + err)
+        continue
+      chi_rec = [t for t in rec.tr if t[0] == 'chi'][0]
+      ig = [t for t in rec.tr if t[0] == 'igamc'][0]
+      bn = [t for t in rec.tr if t[0] == 'binom'][0]
+      cs = list(rec.oracle)
+      nu = [0] * 7
+      for c in cs:
+        nu[nist_class(nist_T(M, c)[0])] += 1
+      N = len(cs)
+      chi_nist = sum((Fr(v) - N * p) ** 2 / (N * p) for v, p in zip(nu, NIST_PI))
+      for i_, v in enumerate(chi_rec[1]):
+        if v:
+          rep.tags['nist.stats:lcstat-class%d-hit:%s' % (i_, 'even' if M % 2 == 0 else 'odd')] = \
+              rep.tags.get('nist.stats:lcstat-class%d-hit:%s' % (i_, 'even' if M % 2 == 0 else 'odd'), 0) + 1
+      exp = 'ok %x %s %x %x %s %s %s' % (M, L(list(chi_rec[1])), bn[2] + 1, bn[1] + 1, L(cs), L(nu), R(chi_nist))
+      b.add(line, exp, tag=tag, canon=lc_canon(2 * ig[2]))
+
+  # -- (c) NonOverlappingTemplateMatching: counts = hits of NIST's scan; chi-square per template
+  def nist_scan(block, tpl):
+    m, i, W = len(tpl), 0, 0
+    while i + m <= len(block):
+      if block[i:i + m] == tpl:
+        W += 1
+        i += m
+      else:
+        i += 1
+    return W
+
+  def notm_canon(chis_impl):
+    def canon(m):
+      f = m.split(' ')
+      if f[0] != 'ok':
+        return m
+      chis = [] if f[8] == '[]' else [PR(t) for t in f[8].split(',')]
+      if len(chis) != len(chis_impl) or not all(close(a, q) for a, q in zip(chis_impl, chis)):
+        return m + ' CHI-FLOAT-MISMATCH impl=%r' % (chis_impl[:4],)
+      return ' '.join(f[:8])
+    return canon
+
+  notm_cases = []
+  for n in (48, 200, 1000) + ((5000, 40000) if thorough else (3000,)):
+    for blocks, m, ts in ((2, 3, (1, 4)), (1, None, None), (2, None, None), (8, None, None), (4, 1, None), (4, 2, None),
+                          (4, 3, None), (3, 4, None), (4, 5, None), (4, 3, (1, 3, 4, 6)), (4, 3, (1, 2)), (4, 2, (1, 9)),
+                          (n, None, None), (5, 4, (1, 3, 7, 8, 12, 14))):
+      notm_cases.append((rng.getrandbits(n), n, blocks, m, ts, 'random'))
+    notm_cases.append((periodic('0001', n), n, 4, 4, (8, 1), 'periodic'))
+    notm_cases.append((periodic('011', n), n, 2, 3, (6, 3, 4), 'periodic'))
+    notm_cases.append(((1 << n) - 1, n, 2, 2, None, 'ones'))
+  notm_cases.append((rng.getrandbits(8200), 8200, 8, None, None, 'random'))
+  for (x, n, blocks, m, ts, fam) in notm_cases:
+    fc_log, ig_log = [], []
+    saved = ns.util
+    try:
+      def fc(seq, length, mm, wrap=True):
+        r = util.FrequencyCount(seq, length, mm, wrap)
+        fc_log.append(list(r))
+        return r
+
+      def igamc(a, xx):
+        ig_log.append((a, xx))
+        return util.Igamc(a, xx)
+      ns.util = _Proxy(util, FrequencyCount=fc, Igamc=igamc)
+      try:
+        r = ns.NonOverlappingTemplateMatching(x, n, blocks, m, None if ts is None else list(ts))
+        err = None
+      except Exception as e:  # noqa
+        err = type(e).__name__
+    finally:
+      ns.util = saved
+    line = 'nist.notmstat %s %s %s %s %s' % (H(x), H(n), H(blocks), O(m), '-' if ts is None else L(ts))
+    if err:
+      b.add(line, 'err ' + err, tag='notmstat:' + err)
+      continue
+    names = [nm for nm, _ in r]
+    mm = len(names[0]) - len("template ''") if names else (m or 0)
+    tpls = [int(nm[len("template '"):-1], 2) for nm in names]
+    bs = n // blocks
+    counts = [[cnt[t] for t in tpls] for cnt in fc_log]
+    blist = [[(x >> (j * bs + i)) & 1 for i in range(bs)] for j in range(len(fc_log))]
+    scan = [[nist_scan(blk, [(t >> i) & 1 for i in range(mm)]) for t in tpls] for blk in blist]
+    mean = Fr(bs - mm + 1, 2 ** mm)
+    var = bs * (Fr(1, 2 ** mm) - Fr(2 * mm - 1, 2 ** (2 * mm)))
+    rows = lambda rr: '[]' if not rr else ';'.join(L(w) for w in rr)
+    exp = 'ok %x %x %s %s %s %s %s' % (mm, bs, L(tpls), rows(counts), rows(scan), R(mean), R(var))
+    b.add(line, exp, tag='notmstat:%s:m=%d' % (fam, mm), canon=notm_canon([2 * xx for _, xx in ig_log]))
+
+  # -- (d) LargeBinaryMatrixRank: the sub-matrix through util.SplitSequence, its rank through util.BinaryMatrixRank,
+  #        the p-value through the real function with the rank forced
+  for s_ in (1, 2, 3, 5, 8, 13, 49, 50, 51, 64, 65) + ((128, 256) if thorough else (128,)):
+    for fam in ('random', 'deficient', 'zero'):
+      if fam == 'random':
+        x = rng.getrandbits(s_ * s_ + 17)
+      elif fam == 'zero':
+        x = rng.getrandbits(17) << (s_ * s_)
+      else:
+        base = [rng.getrandbits(s_) for _ in range(max(1, s_ - rng.randrange(0, min(s_, 8) + 0) - 1))]
+        rows_ = [base[rng.randrange(len(base))] ^ base[rng.randrange(len(base))] for _ in range(s_)]
+        x = sum(r_ << (i * s_) for i, r_ in enumerate(rows_)) | (rng.getrandbits(9) << (s_ * s_))
+      mat = util.SplitSequence(x & ((1 << (s_ * s_)) - 1), s_ * s_, s_)
+      rk = util.BinaryMatrixRank(list(mat))
+      b.add('nist.largematrix %s %s' % (H(x), H(s_)), '%s %x' % (L(mat), rk),
+            tag='largematrix:%s:%s' % (fam, 'small-path' if s_ < 50 else 'table-path'))
+  for size, n in ((64, 4096), (128, 16384)):
+    for rk in list(range(size - 36, size + 1)):
+      saved = ens.util
+      try:
+        ens.util = _Proxy(util, BinaryMatrixRank=lambda mtx: rk if len(mtx) == size else len(mtx))
+        pv = dict(ens.LargeBinaryMatrixRank(0, n))
+      finally:
+        ens.util = saved
+      p = pv['%d * %d' % (size, size)]
+      b.add('nist.largep %s %s' % (H(size), H(rk)), repr(float(p)), tag='largep:%s' % ('beyond-table' if size - rk >= 33 else 'table'),
+            canon=lambda m: repr(float(PR(m))))
+
+  # -- (e) LinearComplexityScatter as a function of the bit string; the streams through util.Scatter
+  sc_cases = []
+  for n in (64, 200, 1000) + ((5000,) if thorough else (2500,)):
+    for (step, mbs) in ((1, None), (2, None), (3, 10), (7, None), (32, None), (8, 10), (8, 1000), (n, None), (n + 3, None), (5, 1)):
+      sc_cases.append((rng.getrandbits(n), n, step, mbs, 'random'))
+    sc_cases.append((periodic('0110', n), n, 4, None, 'periodic'))
+    sc_cases.append((0, n, 3, None, 'zeros'))
+  sc_cases.append((rng.getrandbits(70000), 70000, 32, 2000, 'random'))
+  for (x, n, step, mbs, fam) in sc_cases:
+    with Recorder() as rec:
+      try:
+        ens.LinearComplexityScatter(x, n, step, mbs)
+        err = None
+      except Exception as e:  # noqa
+        err = type(e).__name__
+    n2 = step * mbs if (mbs is not None and step * mbs < n) else n
+    line = 'nist.scatterbits %s %s %s %s' % (H(x), H(n), H(step), O(mbs))
+    if err:
+      b.add(line, 'err ' + err, tag='scatterbits:' + err)
+    else:
+      bn = [t for t in rec.tr if t[0] == 'binom'][0]
+      sizes = [(n2 + step - 1 - i) // step for i in range(step)]
+      b.add(line, 'ok %x %s %x %s' % (n2, L(sizes), bn[2] + 1, L(list(rec.oracle))),
+            tag='scatterbits:%s:%s' % (fam, 'truncated' if n2 != n else 'full'))
+    b.add('nist.scatterseq %s %s %s' % (H(x), H(n2), H(step)), L(util.Scatter(x & ((1 << n2) - 1), step)),
+          tag='scatterseq:' + fam)
+
+  # -- (f) the integer-level transformations the invariance clauses are about
+  for n in (0, 1, 5, 8, 13, 64, 100, 257, 1000):
+    for _ in range(2):
+      x = rng.getrandbits(n) if n else 0
+      lst = [(x >> i) & 1 for i in range(n)]
+      for k in (0, 1, 7, n // 2, n, n + 3):
+        j = k % n if n else 0
+        want = from_list(lst[j:] + lst[:j])
+        if want != rotate_k(k)(x, n) or (k == 1 and want != rotate1(x, n)):
+          want = -1   # the harness transform is not the list rotation: reported as a divergence
+        b.add('nist.rotate %s %s %s' % (H(x), H(n), H(k)), H(want), tag='rotate')
+      rv = util.ReverseBits(x, n)
+      if rv != from_list(lst[::-1]) or rv != reverse(x, n):
+        rv = -1
+      b.add('nist.reverse %s %s' % (H(x), H(n)), 'ok ' + H(rv), tag='reverse')
+      b.add('nist.complement %s %s' % (H(x), H(n)), H(complement(x, n)), tag='complement')
+  rep.absorb(b, b.run())
 
 
 def spectral_batch(rep, rng, thorough):
